@@ -27,6 +27,9 @@ CHECKS = {
  "C03": (EX, "bounded exhaustive enumeration of (class x dim x optional-argument grid x var/len_scale/nugget/rescale x lag alphabet) against mpmath closed forms written from the docstrings; identities between all public model functions; user subclasses via each defining function",
          "Full product over 17 classes, dims 1-3, optional arguments incl. both (dimension dependent) bounds, parameter sets and a lag alphabet placed at every branch boundary of the code (zero lag and its isclose zone, support edge +-1e-12, Matern nu>20 switch, exponential-integral x>30 branch, far tail); integral scales by independent quadrature; axis / spatial / Yadrenko variants via explicit rotation matrices and the chordal formula.",
          "lags and parameters are grids; mpmath and the docstring formulas are trusted; rtol 1e-8 for special functions", "5/C03"),
+ "C12": (EX, "bounded exhaustive enumeration of (dim 1-4 x angle tuples x anisotropy ratios) against explicit rotation / stretching matrices written from the documented conventions; pipeline equivalence anisotropic-at-x vs isotropic-at-Tx",
+         "All angle tuples over an alphabet containing every multiple of pi/2 and generic values (all 3-tuples in 3-D, all tuples with at most 3 non-zero of 6 angles in 4-D) x all anisotropy tuples from {1, .5, .1, 3}; rotation matrices, inverses, main axes, model transforms and length scales along rotated axes are compared with the documented Givens recipe; SRF, Fourier SRF, kriging and CondSRF with the rotated anisotropic model at x are compared with the isotropic model at the oracle-transformed positions.",
+         "finite angle / ratio alphabets; the documented conventions (tutorials) are the reference", "5/C12"),
 }
 PENDING = {}
 def main():
